@@ -27,6 +27,18 @@ type vC42SRun struct {
 	url  string
 	ctx  context.Context
 	fail chan struct{}
+	mu   sync.Mutex
+	conf *conf.Path // the effective configuration: the one of the creation, replaced by each one notified
+}
+
+func (rn *vC42SRun) gen() int {
+	rn.mu.Lock()
+	defer rn.mu.Unlock()
+	g, err := strconv.Atoi(strings.TrimPrefix(rn.conf.SourceFingerprint, "gen-"))
+	if err != nil {
+		return -1
+	}
+	return g
 }
 
 type vC42SInst struct {
@@ -36,13 +48,19 @@ type vC42SInst struct {
 func (*vC42SInst) Log(logger.Level, string, ...any) {}
 
 func (i *vC42SInst) Run(p defs.StaticSourceRunParams) error {
-	rn := &vC42SRun{url: p.ResolvedSource, ctx: p.Context, fail: make(chan struct{})}
+	rn := &vC42SRun{url: p.ResolvedSource, ctx: p.Context, fail: make(chan struct{}), conf: p.Conf}
 	i.ev <- rn
-	select {
-	case <-p.Context.Done():
-		return fmt.Errorf("terminated")
-	case <-rn.fail:
-		return errors.New("verif: the instance failed")
+	for {
+		select {
+		case <-p.Context.Done():
+			return fmt.Errorf("terminated")
+		case <-rn.fail:
+			return errors.New("verif: the instance failed")
+		case nc := <-p.ReloadConf:
+			rn.mu.Lock()
+			rn.conf = nc
+			rn.mu.Unlock()
+		}
 	}
 }
 
@@ -62,6 +80,9 @@ type vC42SStep struct {
 	q    string
 	ms   []string
 	why  string
+	// reload: path.doReloadConf hands in a new configuration at every reload (ReloadConf); the groups only when the
+	// path moved to another configuration (ReloadMatches)
+	confOnly bool
 }
 
 type vC42SSpec struct {
@@ -122,6 +143,15 @@ func vC42SGroups(r *vRand, n int) []string {
 	return ms
 }
 
+func vC42SReload(r *vRand, cur *[]string) vC42SStep {
+	if r.Chance(1, 3) {
+		return vC42SStep{kind: "reload", confOnly: true, why: "same configuration key, other values"}
+	}
+	ms, why := vC42SNextGroups(r, *cur)
+	*cur = ms
+	return vC42SStep{kind: "reload", ms: ms, why: why}
+}
+
 func vC42SNextGroups(r *vRand, cur []string) ([]string, string) {
 	n := len(cur) - 1
 	switch r.Intn(6) {
@@ -169,22 +199,16 @@ func vC42SQuery(r *vRand, prev string) string {
 func vC42SPeriod(r *vRand, q string, cur *[]string, retry bool) []vC42SStep {
 	steps := []vC42SStep{{kind: "start", q: q}}
 	for r.Chance(1, 3) {
-		ms, why := vC42SNextGroups(r, *cur)
-		*cur = ms
-		steps = append(steps, vC42SStep{kind: "reload", ms: ms, why: why})
+		steps = append(steps, vC42SReload(r, cur))
 	}
 	if retry {
 		steps = append(steps, vC42SStep{kind: "fail"})
-		if r.Chance(1, 2) {
-			ms, why := vC42SNextGroups(r, *cur)
-			*cur = ms
-			steps = append(steps, vC42SStep{kind: "reload", ms: ms, why: why})
+		if r.Chance(3, 4) {
+			steps = append(steps, vC42SReload(r, cur))
 		}
 		steps = append(steps, vC42SStep{kind: "retry"})
 		if r.Chance(1, 2) {
-			ms, why := vC42SNextGroups(r, *cur)
-			*cur = ms
-			steps = append(steps, vC42SStep{kind: "reload", ms: ms, why: why})
+			steps = append(steps, vC42SReload(r, cur))
 		}
 	} else if r.Chance(1, 8) {
 		// a failure whose retry never comes: the source is stopped during retryPause
@@ -223,9 +247,7 @@ func vC42SRandom(r *vRand, retry bool) vC42SSpec {
 		steps = append(steps, vC42SPeriod(r, q, &cur, p == retryAt)...)
 		prev = q
 		if r.Chance(1, 4) {
-			ms, why := vC42SNextGroups(r, cur)
-			cur = ms
-			steps = append(steps, vC42SStep{kind: "reload", ms: ms, why: why})
+			steps = append(steps, vC42SReload(r, &cur))
 		}
 	}
 	if r.Chance(1, 3) {
@@ -271,6 +293,12 @@ func vC42SDirected() []vC42SSpec {
 		vC42SSpec{tmpl: "rtsp://h/$MTX_QUERY/x?$MTX_QUERY", ms0: []string{"p"}, fam: "directed", steps: append(per("q"), per("")...)},
 		// a query that looks like placeholders
 		vC42SSpec{tmpl: t, ms0: ms, fam: "directed", steps: append(append(per("a=$G1"), per("")...), per("$MTX_QUERY")...)},
+		// a reload of the configuration alone while the source is stopped / running: the next instance has it
+		vC42SSpec{tmpl: t, ms0: ms, fam: "directed", steps: []vC42SStep{{kind: "start", q: "a=1"}, {kind: "stop"},
+			{kind: "reload", confOnly: true, why: "same configuration key, other values"}, {kind: "start", q: ""},
+			{kind: "reload", confOnly: true, why: "same configuration key, other values"}, {kind: "stop"}, {kind: "start", q: "b=2"}}},
+		vC42SSpec{tmpl: t, ms0: ms, fam: "directed", steps: []vC42SStep{
+			{kind: "reload", confOnly: true, why: "same configuration key, other values"}, {kind: "start", q: ""}, {kind: "stop"}}},
 		// a template without $MTX_QUERY: the query changes nothing
 		vC42SSpec{tmpl: "rtsp://$G1/$G2", ms0: ms, fam: "directed", steps: append(per("token=abc"), per("")...)},
 	)
@@ -286,6 +314,10 @@ func vC42SRetryDirected() []vC42SSpec {
 			{kind: "start", q: ""}, {kind: "fail"}, {kind: "retry"}, {kind: "stop"}, {kind: "start", q: "user=x"}, {kind: "stop"}}},
 		{tmpl: t, ms0: ms, fam: "directed", steps: []vC42SStep{{kind: "start", q: "token=abc"}, {kind: "fail"},
 			{kind: "reload", ms: ms2, why: "group 1 has another value"}, {kind: "retry"}, {kind: "stop"}, {kind: "start", q: ""}, {kind: "stop"}}},
+		// a reload of the configuration alone inside retryPause: the retried instance runs with it
+		{tmpl: t, ms0: ms, fam: "directed", steps: []vC42SStep{{kind: "start", q: "a=1"}, {kind: "fail"},
+			{kind: "reload", confOnly: true, why: "same configuration key, other values"}, {kind: "retry"},
+			{kind: "reload", confOnly: true, why: "same configuration key, other values"}, {kind: "stop"}}},
 	}
 }
 
@@ -303,6 +335,11 @@ type vC42SResult struct {
 	nontrivial bool
 	discarded  string
 	trans      []string
+	// the same history seen as a SrcConf case: the effective configuration of the running instance after every step
+	confCoq   string
+	confDesc  map[string]any
+	confClass string
+	confNT    bool
 }
 
 func vC42SQKind(q, prev string, first bool) string {
@@ -319,7 +356,7 @@ func vC42SQKind(q, prev string, first bool) string {
 
 func vC42SRunSpec(sp vC42SSpec) vC42SResult {
 	h := &Handler{
-		Conf:    &conf.Path{Source: sp.tmpl},
+		Conf:    &conf.Path{Source: sp.tmpl, SourceFingerprint: "gen-0"},
 		Matches: sp.ms0,
 		Parent:  vC42SParent{},
 	}
@@ -340,6 +377,10 @@ func vC42SRunSpec(sp vC42SSpec) vC42SResult {
 	curQ := ""
 	var stepTerms []string
 	var descSteps []map[string]any
+	var confTerms []string
+	var confDesc []map[string]any
+	gen := 0
+	reloadAt := map[string]bool{}
 	var trans []string
 	prevQ, nStarts := "", 0
 	restarted, retried, reloadedStopped := false, false, false
@@ -414,9 +455,23 @@ func vC42SRunSpec(sp vC42SSpec) vC42SResult {
 			term = "OSrcStop"
 			op = "nobody needs the source: Stop"
 		case "reload":
-			h.ReloadMatches(st.ms)
-			curMs = st.ms
-			if running && alive && cur != nil && resolveSource(sp.tmpl, st.ms, curQ) != cur.url {
+			// what path.doReloadConf does
+			gen++
+			nc := &conf.Path{Source: sp.tmpl, SourceFingerprint: "gen-" + strconv.Itoa(gen)}
+			switch {
+			case !running:
+				reloadAt["stopped"] = true
+			case alive:
+				reloadAt["running"] = true
+			default:
+				reloadAt["retry-pause"] = true
+			}
+			if !st.confOnly {
+				h.ReloadMatches(st.ms)
+				curMs = st.ms
+			}
+			h.ReloadConf(nc)
+			if running && alive && cur != nil && resolveSource(sp.tmpl, curMs, curQ) != cur.url {
 				rn := wait(20 * time.Second)
 				if rn == nil {
 					// the verdict on "not restarted" is Coq's: the last URL is no longer current
@@ -433,8 +488,18 @@ func vC42SRunSpec(sp vC42SSpec) vC42SResult {
 					reloadedStopped = true
 				}
 			}
-			term = cqApp("OReload", cqOpt(true, msT(st.ms)), "[]")
-			op = "hot reload, the path moved to another configuration (" + st.why + "): ReloadMatches"
+			if running && alive && cur != nil {
+				// the new configuration reaches the running instance asynchronously
+				for dl := time.Now().Add(10 * time.Second); cur.gen() != gen && time.Now().Before(dl); {
+					time.Sleep(200 * time.Microsecond)
+				}
+			}
+			term = cqApp("OReload", cqOpt(!st.confOnly, msT(st.ms)), "[]")
+			op = "hot reload to configuration #" + strconv.Itoa(gen) + " (" + st.why + "): "
+			if !st.confOnly {
+				op += "ReloadMatches, "
+			}
+			op += "ReloadConf"
 		case "fail":
 			if !running || !alive || cur == nil {
 				continue
@@ -463,6 +528,14 @@ func vC42SRunSpec(sp vC42SSpec) vC42SResult {
 			op = "retryPause is over: the handler creates the next instance"
 		}
 		stepTerms = append(stepTerms, cqPair(term, obT(urls)))
+		cop := map[string]string{"start": "CStart", "stop": "CStop", "reload": "CReload", "fail": "CFail", "retry": "CRetry"}[st.kind]
+		eff, effD := "None", "no instance runs"
+		if running && alive && cur != nil {
+			g := cur.gen()
+			eff, effD = "(Some "+cqZ(int64(g))+")", "the running instance has configuration #"+strconv.Itoa(g)
+		}
+		confTerms = append(confTerms, cqPair(cop, eff))
+		confDesc = append(confDesc, map[string]any{"op": op, "observed": effD})
 		descSteps = append(descSteps, map[string]any{"op": op, "groups": fmt.Sprintf("%q", curMs), "instances_given": vC42Q(urls)})
 		if res.discarded != "" {
 			break
@@ -496,6 +569,20 @@ func vC42SRunSpec(sp vC42SSpec) vC42SResult {
 		res.class += "+retry"
 	}
 	_ = reloadedStopped
+	res.confCoq = cqApp("SrcConf", cqList(confTerms))
+	res.confDesc = map[string]any{"kind": "configuration of the source instances of a real staticsources.Handler (recording instance; " +
+		"configuration #k = the one handed in by the k-th ReloadConf, #0 = the one of the creation)", "steps": confDesc}
+	var at []string
+	for _, k := range []string{"running", "stopped", "retry-pause"} {
+		if reloadAt[k] {
+			at = append(at, k)
+		}
+	}
+	if len(at) == 0 {
+		at = []string{"none"}
+	}
+	res.confClass = "life:source-conf:reloads-while-" + strings.Join(at, "+")
+	res.confNT = gen > 0
 	res.trans = trans
 	res.nontrivial = (strings.Contains(sp.tmpl, "$MTX_QUERY") && diffQueries) || restarted
 	return res
@@ -541,6 +628,7 @@ func vC42SourceLife(r *vRand, out *vOut, n int) {
 			transCount[t]++
 		}
 		out.Case(res.coq, res.desc, res.class, res.nontrivial)
+		out.Case(res.confCoq, res.confDesc, res.confClass, res.confNT)
 	}
 	var keys []string
 	for k := range transCount {
